@@ -64,7 +64,7 @@ def r1(ctx):
             ctx.check(bool(tests) and any(bd.block_dominates(t, c.idx) for t in tests), "order:%s-test-dominates-%s" % (pf, f), "the %s test is on every path to %s" % (pf, f), bd.where(c.idx), bad_detail="%s can be scheduled without consulting %s first" % (f, pf))
         # the builder closure builds the namesake task from the namesake config
         clo = e[2][1]
-        cdef = clo[1] if clo[0] == "closure" else None
+        cdef = clo[1] if clo[0] in ("closure", "fn") else None  # a non-capturing builder may be a nested fn passed by name
         cb = prog.bodies.get(cdef) if cdef else None
         if cb is None:
             ctx.bad("next:%s:builder" % f, "builder closure not found", bd.where(c.idx))
